@@ -4,6 +4,7 @@ package core
 
 import (
 	"encoding/binary"
+	"io"
 
 	"github.com/scigolib/hdf5/internal/vrt"
 )
@@ -21,17 +22,13 @@ func (m *verifMem) WriteAt(p []byte, off int64) (int, error) {
 	return len(p), nil
 }
 
-type verifEOFErr struct{}
-
-func (verifEOFErr) Error() string { return "EOF" }
-
 func (m *verifMem) ReadAt(p []byte, off int64) (int, error) {
 	if off < 0 || int(off) >= len(m.data) {
-		return 0, verifEOFErr{}
+		return 0, io.EOF
 	}
 	n := copy(p, m.data[off:])
 	if n < len(p) {
-		return n, verifEOFErr{}
+		return n, io.EOF
 	}
 	return n, nil
 }
